@@ -23,6 +23,7 @@ type c07Shape struct {
 	ToIdx    int    `json:"to_idx"`
 	TailHist bool   `json:"replica_with_unapplied_tail"`
 	Prio     bool   `json:"master_has_the_highest_priority"`
+	OneTry   bool   `json:"switchover_max_attempts_1"` // legal: a request gets one counted attempt; an interrupted one is not a counted one
 }
 
 type c07Fault struct {
@@ -40,6 +41,7 @@ func c07Gen(seed int64, idx int) c07Shape {
 	sh.MgrOn = []string{"master", "replica"}[r.Intn(2)]
 	sh.ToIdx = 1 + r.Intn(sh.N-1)
 	sh.TailHist = r.Intn(3) == 0
+	sh.OneTry = (idx/len(c01Reqs))%4 == 1
 	return sh
 }
 
@@ -65,6 +67,9 @@ func c07Scenario(u *Unit, name string, sh c07Shape, fault *c07Fault) (*Tracker, 
 			c.ForceSwitchover = sh.Force
 			c.FailoverDelay = 5 * time.Second
 			c.SlaveCatchUpTimeout = 60 * time.Second
+			if sh.OneTry {
+				c.SwitchoverMaxAttempts = 1
+			}
 		}}
 	spec := map[string]any{"shape": sh}
 	if fault != nil {
